@@ -58,6 +58,7 @@ func (s *Sim) DeliverHeader(b *MBlock) {
 	lateDup := b.H.ts > s.adjNow()+7200 && s.nodeKnown(b)
 	tooNew := b.H.ts > s.adjNow()+7200 && !lateDup
 	ownBad := b.Class != ClsValid && headerDetectable[b.Reason]
+	knownBefore := s.nodeKnown(b)
 	isMain, err := s.n.Chain.ProcessBlockHeader(&h, blockchain.BFNone, false)
 	res := "ok"
 	if err != nil {
@@ -85,6 +86,13 @@ func (s *Sim) DeliverHeader(b *MBlock) {
 		s.judgedInv++
 	case lateDup:
 		r.Probe("known-header-redelivered-when-too-new")
+	case s.failedAttach[b.Parent] && s.nodeKnown(b.Parent) && !knownBefore:
+		// the parent is part of a branch the node itself found invalid
+		// while attaching it
+		if err == nil {
+			r.Violate("C17", "header-on-known-invalid-refused", "", "header %v extends %v, which the node found invalid (or below an invalid block) when it tried to attach that branch, but was accepted", b, b.Parent)
+		}
+		r.Probe("header-on-failed-branch-refused")
 	case s.excluded(b.Parent) && s.markedInvalid[b.Parent] && s.nodeKnown(b.Parent):
 		// the parent was invalidated by the operator (directly or through an
 		// ancestor): the node knows it is invalid
